@@ -6,14 +6,35 @@ package ugo
 
 //@ import "github.com/ozanh/ugo/token"
 
-//@ func (Int).Equal
+// ---------------------------------------------------------------------------
+// C15: == on the scalar kinds, strings, bytes and undefined
+
+//@ func (Int).Equal, (Uint).Equal, (Float).Equal, (Char).Equal, (Bool).Equal, (String).Equal, (Bytes).Equal
 //@ params o right
 //@ results r
 //@ requires validObj(right)
 //@ ensures r == specEq(o, right)
 //@ property C15
 
-//@ func (Int).BinaryOp
+//@ func (*UndefinedType).Equal
+//@ params o right
+//@ results r
+//@ requires validObj(right) && o != nil
+//@ ensures r == specEq(o, right)
+//@ property C15
+
+//@ lemma eqSymmetric
+//@ vars a, b Object
+//@ requires specScalar(a) && specScalar(b)
+//@ ensures specEq(a, b) == specEq(b, a)
+//@ property C15
+
+// ---------------------------------------------------------------------------
+// C15: binary operators
+
+//@ func (Int).BinaryOp, (Uint).BinaryOp, (Float).BinaryOp, (Char).BinaryOp, (Bool).BinaryOp
+//@ loop 0 invariant validObj(right) && (right == old(right) || right == specBoolAsInt(old(right)))
+//@ loop 0 invariant (bool(o) && bval == 1) || (!bool(o) && bval == 0)
 //@ params o tok right
 //@ results v err
 //@ requires validObj(right)
@@ -32,57 +53,48 @@ package ugo
 //@ ensures e != nil && e.Cause == error(ErrType)
 //@ property C15
 
-//@ func (Uint).Equal
-//@ params o right
-//@ results r
+//@ func (String).BinaryOp, (Bytes).BinaryOp
+//@ params o tok right
+//@ results v err
 //@ requires validObj(right)
-//@ ensures r == specEq(o, right)
+//@ ensures[order]    specIsOrderTok(tok) && specScalar(right) && specOrderDefined(o, right) ==> err == nil && v == Object(Bool(specOrder(tok, o, right)))
+//@ ensures[errkind]  err != nil ==> v == nil && specDocumentedError(err)
+//@ cases right: Int, Uint, Float, Char, Bool, String, Bytes, *UndefinedType, other
+//@ cases tok: token.Add, token.Less, token.LessEq, token.Greater, token.GreaterEq, other
 //@ property C15
 
-//@ func (Float).Equal
-//@ params o right
-//@ results r
-//@ requires validObj(right)
-//@ ensures r == specEq(o, right)
-//@ property C15
-
-//@ func (Char).Equal
-//@ params o right
-//@ results r
-//@ requires validObj(right)
-//@ ensures r == specEq(o, right)
-//@ property C15
-
-//@ func (Bool).Equal
-//@ params o right
-//@ results r
-//@ requires validObj(right)
-//@ ensures r == specEq(o, right)
-//@ property C15
-
-//@ func (String).Equal
-//@ params o right
-//@ results r
-//@ requires validObj(right)
-//@ ensures r == specEq(o, right)
-//@ property C15
-
-//@ func (Bytes).Equal
-//@ params o right
-//@ results r
-//@ requires validObj(right)
-//@ ensures r == specEq(o, right)
-//@ property C15
-
-//@ func (*UndefinedType).Equal
-//@ params o right
-//@ results r
+//@ func (*UndefinedType).BinaryOp
+//@ params o tok right
+//@ results v err
 //@ requires validObj(right) && o != nil
-//@ ensures r == specEq(o, right)
+//@ ensures[order]    specIsOrderTok(tok) && specScalar(right) && specOrderDefined(o, right) ==> err == nil && v == Object(Bool(specOrder(tok, o, right)))
+//@ ensures[errkind]  err != nil ==> v == nil && specDocumentedError(err)
+//@ cases right: Int, Uint, Float, Char, Bool, String, Bytes, *UndefinedType, other
+//@ cases tok: token.Add, token.Less, token.LessEq, token.Greater, token.GreaterEq, other
 //@ property C15
 
-//@ lemma eqSymmetric
+// Order laws over the specification relations the operator contracts are
+// proved against: exactly one of a<b, a==b, a>b (NaN aside) wherever the
+// relational operators are defined in both directions. a<=b == (a<b || a==b)
+// and a<b == b>a hold by the definition of specOrder, which every BinaryOp is
+// proved to compute.
+//@ lemma orderTrichotomy
+//@ vars a, b Object
+//@ requires specScalar(a) && specScalar(b) && specOrderDefined(a, b) && specOrderDefined(b, a)
+//@ requires !specIsNaN(a) && !specIsNaN(b)
+//@ ensures[atleast] specLess(a, b) || specEq(a, b) || specLess(b, a)
+//@ ensures[lt_eq]   !(specLess(a, b) && specEq(a, b))
+//@ ensures[lt_gt]   !(specLess(a, b) && specLess(b, a))
+//@ ensures[eq_gt]   !(specEq(a, b) && specLess(b, a))
+//@ cases a: Int, Uint, Float, Char, Bool, String, Bytes, *UndefinedType
+//@ cases b: Int, Uint, Float, Char, Bool, String, Bytes, *UndefinedType
+//@ property C15
+
+//@ lemma orderDerived
 //@ vars a, b Object
 //@ requires specScalar(a) && specScalar(b)
-//@ ensures specEq(a, b) == specEq(b, a)
+//@ ensures[leq]    specOrder(token.LessEq, a, b) == (specOrder(token.Less, a, b) || specEq(a, b))
+//@ ensures[geq]    specOrder(token.GreaterEq, a, b) == (specOrder(token.Greater, a, b) || specEq(a, b))
+//@ ensures[mirror] specOrder(token.Less, a, b) == specOrder(token.Greater, b, a)
+//@ ensures[mirror2] specOrder(token.LessEq, a, b) == specOrder(token.GreaterEq, b, a)
 //@ property C15
